@@ -72,6 +72,15 @@ def run(specs, known, signature, differential=None, jobs=None):
   diff = None
   if differential is not None:
     diff = differential()
+    for _ in range(2):
+      if not diff.get("disagreements"):
+        break
+      # the schedules are generated from a fixed seed: a disagreement of translator/models with the real code recurs on the same
+      # schedule, a turn missed on a loaded machine does not
+      again = differential()
+      keep = {d.get("schedule") for d in again.get("disagreements", [])}
+      diff["disagreements"] = [d for d in diff["disagreements"] if d.get("schedule") in keep]
+      diff["reruns"] = diff.get("reruns", 0) + 1
     validated += diff.get("schedules", 0) - len(diff.get("disagreements", []))
     if diff.get("disagreements"):
       out["inconclusive"].append("differential validation: translated step machine and real code disagree on %d of %d schedules, e.g. %s" % (
